@@ -636,6 +636,16 @@ func (u *Unit) evalCall(e *SExpr, env *Env) Val {
 			u.specFail("store() needs an array")
 		}
 		return Val{T: sto(a.T, u.termOf(k), u.termOf(v))}
+	case "sarr", "soff":
+		// sarr(s) / soff(s): backing array (a reference) and offset of a slice - for separation conditions
+		x := u.eval(e.Args[0], env)
+		if x.T.Sort != "Slice" {
+			u.specFail("%s needs a slice", e.Name)
+		}
+		if e.Name == "sarr" {
+			return Val{T: sArr(x.T)}
+		}
+		return Val{T: sOff(x.T)}
 	case "ptr":
 		// ptr(r, pkg.T): the reference r (an Int, e.g. a quantified variable) seen as a *pkg.T
 		x := u.eval(e.Args[0], env)
